@@ -268,38 +268,11 @@ def run(repo, rep):
                               '_builtin_repr returns %s for instances of the base type (%s)' % (src(r.value), gb.texts(r)), nontrivial=True)
     rep.floor('C08.c', n, 4)
 
-    # ---------------------------------------------------------------- C08.d
-    n = 0
-    gi = m.funcs.get('general_identifier')
-    if gi is None:
-        raise AnalysisError('general_identifier vanished')
-    p0 = gi.params[0]
-    txt = src(gi.node)
-    n += 1
-    rep.check('%s.__module__' % p0 in txt and '%s.__qualname__' % p0 in txt, 'C08.d', 'general_identifier:module-and-qualname', gi.where,
-              'name built from __module__ and __qualname__', 'general_identifier no longer uses __module__/__qualname__ of the callable', nontrivial=True)
-    g = Guards(gi.node)
-    for r in ast.walk(gi.node):
-        if isinstance(r, ast.Return) and r.value is not None and isinstance(r.value, ast.Call):
-            arg = src(r.value.args[0]) if r.value.args else ''
-            fs = g.of(r)
-            implicit = any(f.pol and 'IMPLICIT_MODULES' in f.text for f in fs)
-            notimpl = any((not f.pol) and 'IMPLICIT_MODULES' in f.text for f in fs)
-            if implicit:
-                n += 1
-                rep.check(arg == 'qualname', 'C08.d', 'general_identifier:implicit-module-unqualified@%s' % call_name(r.value), '%s:%d' % (gi.module.relpath, r.lineno),
-                          'builtins / __main__ names unqualified', 'general_identifier returns %s for implicit modules' % src(r.value))
-            elif notimpl:
-                n += 1
-                rep.check(arg.replace(' ', '') in ("'{}.{}'.format(module,qualname)", "module+'.'+qualname", "f'{module}.{qualname}'"), 'C08.d',
-                          'general_identifier:qualified', '%s:%d' % (gi.module.relpath, r.lineno), 'module.qualname for everything else',
-                          'general_identifier returns %s for classes outside builtins/__main__' % src(r.value), nontrivial=True)
-    im = m.assigns.get('IMPLICIT_MODULES')
-    n += 1
-    vals = sorted(e.value for e in ast.walk(im[-1]) if isinstance(e, ast.Constant)) if im else []
-    rep.check(vals == ['__main__', 'builtins'], 'C08.d', 'implicit-modules', m.relpath, 'only builtins and __main__ are elided',
-              'IMPLICIT_MODULES is %s' % vals, nontrivial=True)
-    rep.floor('C08.d', n, 4)
+    # ---------------------------------------------------------------- C08.d the class of a subclass instance is named so that it can be
+    # evaluated: general_identifier interpreted on model callables (module.qualname; builtins and __main__ elided; nothing else)
+    from . import identmodel
+    n = identmodel.run(repo, rep, 'C08.d')
+    rep.floor('C08.d', n, 10)
     # C08.e: an instance of a subclass of an atomic built-in type that occurs several times in a value (an IntEnum member) is printed
     # by its own printer every time - the visited bookkeeping treats it like any other value (interpreted wrapper model)
     from . import wrapper_model
